@@ -56,10 +56,11 @@ SLICE_RULE = ("direction A: every state of the TLC builder machine is one case; 
 PLANS = {
     "_trace_of_suite": {"slice": "TraceSlice", "build": "TraceBuild", "codes": "TraceCodes", "reader": "TraceReader", "stats": "TraceStats", "fibex": "TraceFibex"},
     "C01": dict(
-        sany=["DltCodec.tla", "mc/MCCodec.tla", "trace/TraceSlice.tla"],
+        sany=["DltCodec.tla", "mc/MCCodec.tla", "trace/TraceSlice.tla", "trace/TraceBuild.tla"],
         steps=[
             mc("codec", "MCCodec", "MCCodec_quick.cfg", "MCCodec_thorough.cfg", replay=("slice", "round")),
             rec("slice", "round", "TraceSlice", 1500, 40000, 3, 10),
+            rec("build", "roundnew", "TraceBuild", 1200, 30000, 1, 4),
         ],
         rule=SLICE_RULE,
         explanation="MC: theorem RoundTrip (decode(encode m ++ suffix) = (m, Len)) of the reference codec on every message of the builder machine "
@@ -328,12 +329,13 @@ PLANS = {
     ),
     # not a listed property: growth of the specification beyond the list (DESIGN section 10); run with ./check extras
     "_extras": dict(
-        sany=["DltMisc.tla", "NvDecode.tla", "mc/MCDecode.tla", "trace/TraceCodes.tla", "trace/TraceStats.tla", "trace/TraceDecode.tla", "trace/TraceReader.tla"],
+        sany=["DltMisc.tla", "NvDecode.tla", "mc/MCDecode.tla", "trace/TraceCodes.tla", "trace/TraceStats.tla", "trace/TraceDecode.tla", "trace/TraceReader.tla", "trace/TraceBuild.tla"],
         steps=[
             rec("codes", "misc", "TraceCodes", 300, 5000, 1, 2),
             rec("stats", "pipeline", "TraceStats", 600, 20000, 2, 8),
             rec("fibex", "decode", "TraceDecode", 200, 4000, 2, 8),
             rec("reader", "cont", "TraceReader", 400, 8000, 2, 8),
+            rec("build", "stampnow", "TraceBuild", 20, 40, 1, 1),
             mc("decode", "MCDecode", "MCDecode.cfg", "MCDecode.cfg", replay=("fibex", "decode")),
             dict(kind="custom", fn=tlaps_timestamps_always),
         ],
